@@ -117,8 +117,8 @@ def main():
             refused = [l for l in refused if not (l.startswith("EdgeG") and st["scope"] == "local")
                        and not (l.startswith("EdgeL") and st["scope"] == "global")]
             refused = [l for l in refused if l not in may_refuse]
-            # F17 (known finding, see known_findings.json): a channel / synapse-type view of a view that
-            # contains none of it returns the whole view instead of refusing; checked separately below
+            # F17 (repaired in /repo): a channel / synapse-type view of a view that contains none of it used to return the
+            # whole view instead of refusing; these selectors are kept apart so that a regression is reported under its own signature
             quirk = [l for l in refused if l.startswith("Chan(") or l.startswith("Syn(")]
             refused = [l for l in refused if l not in quirk]
             sts.append({"path": path[nid], "out": out, "refused": refused, "quirk": quirk, "lazy": len(path[nid]) <= 1, "may_refuse": may_refuse,
